@@ -99,6 +99,14 @@ AVerify(pr, mr) ==
                 idpk |-> GIsId(pk), idsig |-> GIsId(art.den)]
   /\ phase' = "judged" /\ UNCHANGED art
 
+\* ---- key derivation (C03): KeyGen of draft-irtf-cfrg-bls-signature 2.3 for a seed of n bytes ----
+\*   sk = OS2IP(HKDF-Expand(HKDF-Extract(salt "BLS-SIG-KEYGEN-SALT-", IKM || I2OSP(0,1)), I2OSP(48,2), 48)) mod r
+SeedLens == {0, 1, 31, 32, 33, 1024}
+AKeyGen(n, how) ==
+  /\ phase = "idle" /\ "keygen" \in Modes
+  /\ last' = [act |-> "KeyGen", seedlen |-> n, how |-> how, salt |-> "KEYGEN", l |-> KeyGenL, expect |-> [res |-> "Ok", err |-> ""]]
+  /\ art' = NoArt /\ phase' = "judged"
+
 \* ---- proof-of-possession episode (C09 C05 C04) ----
 APopProve(k) ==
   /\ phase = "idle" /\ "pop" \in Modes
@@ -248,6 +256,7 @@ Next ==
   \/ (phase = "idle" /\ "single" \in Modes /\ \E k \in Keys, s \in Schemes, mr \in MsgRs : ASign(k, s, mr))
   \/ (phase = "made" /\ art.kind = "sig" /\ \E o \in SigOps : ATamperSig(o))
   \/ (phase = "made" /\ art.kind = "sig" /\ \E pr \in PkRs, mr \in MsgRs : AVerify(pr, mr))
+  \/ (phase = "idle" /\ "keygen" \in Modes /\ \E n \in SeedLens, how \in {"from_hash", "facade_from_hash", "enum_from_hash", "random_seeded", "facade_random_seeded"} : AKeyGen(n, how))
   \/ (phase = "idle" /\ "pop" \in Modes /\ \E k \in Keys : APopProve(k))
   \/ (phase = "idle" /\ "pop" \in Modes /\ \E k \in NZKeys, s \in Schemes : ASigAsPop(k, s))
   \/ (phase = "made" /\ art.kind = "pop" /\ \E o \in SigOps : ATamperPop(o))
